@@ -122,6 +122,11 @@ def cases(ctx):
     for m in ("jmp", "bez", "beq", "blt"):
         for v in (2**31, 2**31 + 7, 2**32, 2**40, -2**31 - 1, 2**31 - 1):
             sdk.append({"kind": "nv-branch", "mnemonic": m, "value": v, "expect": "in" if -2**31 <= v <= 2**31 - 1 else "out"})
+    # rotations handed to the NV transpiler on the hardware setting (denominators 0..4 only): a denominator or numerator the
+    # hardware format cannot hold is refused, also when it is negative
+    for m in ("rot_x", "rot_y", "rot_z"):
+        for n_, d_ in ((3, -1), (3, -2), (1, -128), (3, 5), (3, 255), (-1, 2), (256, 2), (3, 2), (31, 4), (0, 0)):
+            sdk.append({"kind": "nv-hw-rot", "mnemonic": m, "n": n_, "d": d_, "expect": "in" if (0 <= d_ <= 4 and 0 <= n_ <= 255) else "out"})
     for site in ("reg", "addr", "entry", "slice", "app", "version"):
         for v in (1, 5, 15, 16, 255, 300, 70000):
             sdk.append({"kind": "carrier", "site": site, "value": v,
@@ -424,6 +429,41 @@ def run_case(ctx, case):
             q = Qubit(conn)
             getattr(q, "rot_" + case["axis"])(n=_typed(case["n"], case.get("vtype")), d=_typed(case["d"], case.get("vtype")))
         sdk(prog, lambda descr, subs: any(d[0] == mn and d[1][1:] == [case["n"], case["d"]] for d in descr))
+    elif kind == "nv-hw-rot":
+        from netqasm.lang import operand as op_
+        from netqasm.lang.encoding import RegisterName
+        from netqasm.lang.instr import core as core_
+        from netqasm.lang.instr import vanilla as van_
+        from netqasm.lang.instr.flavour import NVFlavour
+        from netqasm.lang.parsing import deserialize
+        from netqasm.lang.subroutine import Subroutine
+        from netqasm.runtime.settings import set_is_using_hardware
+        from netqasm.sdk.transpile import NVSubroutineTranspiler
+        import fractions
+        m, n_, d_ = case["mnemonic"], case["n"], case["d"]
+        cls = {"rot_x": van_.RotXInstruction, "rot_y": van_.RotYInstruction, "rot_z": van_.RotZInstruction}[m]
+        Q = op_.Register(RegisterName.Q, 0)
+        ins = [core_.SetInstruction.from_operands([Q, op_.Immediate(0)]), cls.from_operands([Q, op_.Immediate(n_), op_.Immediate(d_)])]
+        ctx.count("hardware_mode_rotations")
+        set_is_using_hardware(True)
+        try:
+            sub = NVSubroutineTranspiler(Subroutine(instructions=ins, app_id=0)).transpile()
+            raw = bytes(sub)
+            dec = deserialize(raw, flavour=NVFlavour())
+        except Exception:
+            ctx.count("out_of_range_rejected" if out else "typed_in_range_rejected_loudly")
+            return ctx.case(case, True)
+        finally:
+            set_is_using_hardware(False)
+        rots = [(i.angle_num.value, i.angle_denom.value) for i in dec.instructions if i.mnemonic.startswith("rot_")]
+        turn = sum(fractions.Fraction(a, 2 ** b) for a, b in rots) % 2
+        want = (fractions.Fraction(n_, 1) / fractions.Fraction(2) ** d_) % 2
+        if out or turn != want:
+            ctx.fail(case, f"silently altered: {m} Q0 {n_} {d_} on the hardware setting was transpiled and encoded without error as rotation(s) {rots}"
+                           + ("" if out else f" (angle {turn} pi instead of {want} pi)"))
+        else:
+            ctx.count("in_range_twins_ok")
+        return ctx.case(case, True)
     elif kind in ("debug-branch", "nv-branch"):
         from netqasm.lang import operand as op_
         from netqasm.lang.encoding import RegisterName
